@@ -120,11 +120,11 @@ class Lifter:
                 return r
         return None
 
-    def _is_guard(self, s):
+    def _is_guard(self, s, need_exit=True):
         if not isinstance(s, ast.If):
             return False
         last = s.body[-1] if s.body else None
-        if not isinstance(last, (ast.Return, ast.Raise)):
+        if need_exit and not isinstance(last, (ast.Return, ast.Raise)):
             return False
         test = expand_pred(self.repo, self.cls, s.test)
         t = U(test)
@@ -154,6 +154,13 @@ class Lifter:
                 if s.orelse:
                     return self._block(s.orelse, env, fn, depth, owner)
                 return None
+            if s.orelse and self._is_guard(s, need_exit=False) and not any(
+                    isinstance(x, ast.Name) and isinstance(
+                        env.get(x.id), bool) for x in ast.walk(s.test)):
+                # `if <outside support>: <fill in -inf> elif ...: else: ...`
+                # with one common exit: the in-support path is the else arm
+                self.guards.append(Guard(s.test, s.body[-1], fn))
+                return self._block(s.orelse, env, fn, depth, owner)
             # flags
             fenv = dict(self.flags)
             for k, v in env.items():
